@@ -23,6 +23,7 @@ package socketace
 //@    return false
 //@ }
 
+//@ ghost G_snap_caps() []string
 //@ pred hasCap(caps []string, c string) := exists i :: 0 <= i && i < len(caps) && strings.ToUpper(caps[i]) == strings.ToUpper(c)
 
 //@ func (cc *ClientConnection) containsCapability
@@ -200,3 +201,7 @@ package socketace
 //@   safe
 //@   requires conn != nil && conn.Reader != nil && conn.Connection != nil
 //@   modifies conn.*, conn.Reader.*, cc.negotiatedVersion, cc.capabilities, cc.capabilities[*]
+// the capability list the client acts on is the field-splitter's parse (comma separated, blanks ignored) of
+// the upper-cased Capabilities header of the server's answer: an offered StartTLS cannot be missed
+//@   callsite SplitField#1 (caps []string) assume spec_sameslice(G_snap_caps(), caps) "ghost snapshot: the parsed capability list"
+//@   ensures err == nil ==> spec_sameslice(cc.capabilities, G_snap_caps())                                         :capabilities_are_the_parsed_header
